@@ -237,3 +237,22 @@ class _SocketX:
 
 
 socketx = _SocketX()
+
+
+# ------------------------------------------------------------------------------------------------
+class _PyplotX:
+    """matplotlib.pyplot imported INSIDE a function body (SimulateControl's result plot): every call is recorded and
+    does nothing (no window, no blocking show()); argument expressions are still evaluated by the executed source"""
+
+    def __init__(self):
+        self.calls = []
+
+    def __getattr__(self, name):
+        def sink(*a, **k):
+            self.calls.append(name)
+            return None
+        sink.__name__ = name
+        return sink
+
+
+pyplotx = _PyplotX()
